@@ -622,11 +622,11 @@ def run_property(pid: str, tier: str, seed: int) -> int:
         f" wall={evidence['wall_s']}s"
     )
     _cleanup(work)
+    for e in harness_errors:
+        print("HARNESS-ERROR:", e, file=sys.stderr)
     if by_kind:
         return 1
     if harness_errors:
-        for e in harness_errors:
-            print("HARNESS-ERROR:", e, file=sys.stderr)
         return 2
     return 0
 
